@@ -191,7 +191,7 @@ class Sim:
     # ---- between containers
     def pair_op(self):
         r = self.rng
-        op = r.choice(['copy', 'copy', 'assign', 'assign', 'assign', 'concat', 'selfassign', 'xassign'])
+        op = r.choice(['copy', 'copy', 'assign', 'assign', 'assign', 'concat', 'selfassign', 'xassign', 'xassign'])
         seqs, maps = self.of('AL'), self.of('TR')
         if op == 'copy':
             src = r.choice(seqs + maps) if seqs + maps else None
@@ -214,11 +214,15 @@ class Sim:
             else: self.map[c] = dict(self.map[d])
             self.emit(f'assign {c} {d}')
         elif op == 'xassign':
-            # sequence <- *empty* Table / Tree (a non-empty one is refused after the clear: out of contract, see assumptions)
+            # sequence <- Table / Tree.  From an empty map the destination is cleared and the call succeeds.  From a NON-EMPTY map
+            # get(obj, $I(0)) raises ValueError: a List (of probes or of Box) has been cleared by then and nothing else happened —
+            # ownership stays consistent, the call is in contract and generated (the source is left as it is);
+            # an Array has already set len = len(source) over unconstructed records (KF-C05-array-assign-partial): for an Array
+            # destination the source is emptied first (or the operation skipped)
             dst = self.of('ALBC')
             if not dst or not maps: return
             c, d = r.choice(dst), r.choice(maps)
-            if self.map[d]:
+            if self.map[d] and self.k[c] in 'AB':
                 if r.random() < 0.5: return
                 self.map[d].clear(); self.emit(f'resize {d} 0')
             self.seq[c] = []
@@ -307,7 +311,9 @@ class C05(Spec):
                  'predecessor copy do to the stored tokens; the model is tied to the C code by running generated histories on the '
                  'real containers with a probe element type and a token ledger, comparing per operation the constructed / finalised / '
                  'in-place-assigned elements and the contents; independent ledger oracle under ASan')
-    level_text = ('Theorems C05_moves_{table,table_rehash_displace,tree,tree_rotate_copy,histories,constructors} + C05_table_source_good: '
+    level_text = ('Theorem C05_moves_array: for every store state (cells, nitems, block) of C04\'s Array model holding token-valued records and every Array operation with any argument, the store-level step (realloc, memmove, record write, eq scan, sort exchanges) reads no unwritten / out-of-block cell, succeeds exactly when the ownership step does and leaves in use exactly the ownership step\'s tokens (sort: a permutation), so records after + finalised = records before + constructed. '
+                  'Theorem C05_list_assign_from_map: assign(List, non-empty Table / Tree) — refused after List_Clear — is in contract: nothing constructed, exactly the old elements finalised, invariant and live = sum of len preserved. '
+                  'Theorems C05_moves_{table,table_rehash_displace,tree,tree_rotate_copy,histories,constructors} + C05_table_source_good: '
                   'for every hash function and every slot array / red-black tree satisfying the representation invariant of C02 / C03, the '
                   'structural model of Table_Set / Table_Rem / Table_Resize / Table_New / Table_Assign and of Tree_Set / Tree_Rem / Tree_Resize / '
                   'Tree_New / Tree_Assign never fails, constructs / finalises / assigns in place exactly the tokens of the ownership model, and the '
@@ -334,14 +340,14 @@ class C05(Spec):
                   '"an element type with its own constructor, assignment and destructor that owns heap memory". Known findings excluded from '
                   'the contract: Box_Assign is shallow (F28), List_Resize growing a list links unconstructed elements. '
                   'Array_Assign from a source whose get raises leaves len counting unconstructed records (own-array-assign-partial). '
-                  'Array / List moves (memmove, realloc, re-linking) are list surgery in the model: their structural model is C04\'s; '
+                  'Array moves (realloc growth / shrink, memmove of push_at / pop_at / rem, the record write of set, sort exchanges) are composed with C04\'s store-level block of records at token-valued records (C05_moves_array: records in use after every operation = contents of the ownership step; for sort a permutation — the two quicksort transcriptions are not identified); List re-linking is still list surgery in the model (C04\'s node-level model is not composed in); '
                   'the Table / Tree layouts are composed in (C05_moves_*), their step-by-step agreement with the C code is checked by the C02 / C03 engines. '
                   'Statements hold after every operation, not inside one.')
     rule = ('histories over up to 12 simultaneously live containers of all kinds (Array, List, Table, Tree of probe elements; Array of Box; '
             'stand-alone Box): (a) mixed, (b) sequence-heavy (push/push_at/pop/pop_at/set/rem/resize/sort/concat/assign Array<->List), '
             '(two probe element types of different size — 24 and 48 bytes, the larger with guard words around its owned pointer — in every key/value/element position); (c) map-heavy with 36 keys sharing 6 hash values (clusters, displacement, replace of existing keys, rem with backward shift, '
             'explicit resize, rehash up and down, assign Table<->Tree), (d) growth to n elements then copy and shrink, (e) Box containers, '
-            '(e\') List of Box, push_at of a Box at accepted and refused positions, assignment of an empty Table/Tree to a sequence, self-assignment of every kind, '
+            '(e\') List of Box, push_at of a Box at accepted and refused positions, assignment of an empty Table/Tree to a sequence and of a non-empty Table/Tree to a List (refused after the clear), self-assignment of every kind, '
             '(f) error-heavy (25% failing calls: empty pop, bad index, absent key/element, refused resize), '
             '(g, run first) type-refused: a third of the calls carry an Int / String / Float / Type object / NULL where a probe element, key or value is expected — '
             'push, append, push_at (accepted and refused index), set, rem, concat from a Tuple on List; set, rem, refused-index push_at on Array; set with wrong key, wrong value '
@@ -354,14 +360,15 @@ class C05(Spec):
             'assigned in place) or a raised exception; distinct = distinct (operation text, observation) pairs.')
     trusted_base = ('harness/h_own.c + lean/Driver/Own.lean (step correspondence is testing)',
                     'Cello/Table.lean and Cello/RBTree.lean mirror src/Table.c and src/Tree.c slot by slot / node by node: validated by the C02 / C03 engines (h_table, h_tree), imported here',
+                    'Cello/SeqStore.lean ArrS mirrors the record block of src/Array.c (realloc, memmove, nitems / nslots): validated cell by cell by the C04 engine (h_seq), imported here for C05_moves_array',
                     'translate/g_own.py (regex over the container sources: which functions call destruct/assign/memcpy/cast, where the casts stand relative to the first effect)',
                     'a refused constructor: the harness deletes the half-built object at once; that the collector does the same at its next sweep is C06\'s subject',
                     'the probe element type of the harness stands for every element type with New/Assign/Del owning heap memory',
                     'in the world of several containers a Table / Tree is its key-sorted association list; C05_moves_* prove that this is what the slot array / red-black tree holds after every operation')
     assumptions = ('single thread, collector running, containers deleted explicitly with del (collector-driven finalisation is C06)',
-                   'Box as source of copy/assign/concat, set over a stored Box, Box-to-Box assign and ref(box, x) excluded: Box_Assign / Box_Ref copy the pointer and drop the old pointee (known finding own-box-assign-shallow, F28); push / push_at (also refused) / pop / pop_at / resize / del / self-assign on Array and List of Box are in contract',
+                   'Box as source of copy/assign/concat, set over a stored Box and Box-to-Box assign excluded: Box_Assign copies the pointer and drops the old pointee (known finding own-box-assign-shallow, F28); ref(box, x) on a Box that owns an object excluded: Box_Ref overwrites the pointer without del (its own finding KF-C05-box-ref-drops, sig own-box-ref-drops); push / push_at (also refused) / pop / pop_at / resize / del / self-assign on Array and List of Box are in contract',
                    'resize(list, n) with n > len excluded: List_Resize links zero-filled, never constructed elements (known finding own-list-resize-raw)',
-                   'assign(Array or List, non-empty Table or Tree) excluded: refused (ValueError) after the destination was cleared, and Array_Assign has already set len = len(source) over unconstructed records (known finding own-array-assign-partial); from an empty Table / Tree it is in contract and generated',
+                   'assign(Array, non-empty Table or Tree) excluded: refused (ValueError) after Array_Assign has set len = len(source) over unconstructed records (known finding own-array-assign-partial, site Array_Assign); from an empty Table / Tree it is in contract and generated; assign(List, Table or Tree) is in contract and generated for empty AND non-empty sources (a non-empty one raises ValueError after List_Clear: the old elements are finalised once, live = sum of len — C05_list_assign_from_map; that the failed call changed its receiver is C12\'s KF-C12-assign-clears)',
                    'assign(Table or Tree, Array or List) is not modelled (the map takes Int as key type and refuses probe keys afterwards; the model does not track element types), concat(x, x) diverges (KF-C04-self-concat): both are answered bad-op by harness and model and a history containing one is outside the contract (inContract requires that the operation was executed)',
                    'arguments are fresh objects, never elements of the container they are passed to (push(a, get(a, i)): Array_Push reads the argument after realloc — C04\'s subject)',
                    'invariants are stated after every operation; nothing is claimed about the states inside one operation',
